@@ -65,6 +65,10 @@ func (b *ReadBuffer) add(segIdx int, bs []byte) ([]byte, bool) {
 		// TODO invalid data format. handling error.
 		return nil, false
 	}
+	if b.Msgs[segIdx] != nil {
+		// duplicated segment: it was already counted
+		return nil, false
+	}
 	b.SegCount++
 	b.MsgSize += len(bs)
 	b.Msgs[segIdx] = bs
